@@ -136,7 +136,7 @@ ENC = ["csvpath/managers/results/results_manager.py:ResultsManager.start_run/add
 @ob(
     "C09",
     "O1-archive-truthful",
-    pre=["{LO} <= ks <= {HI} and {LO} <= kf <= {HI} and {LO} <= t <= {HI} and {LO} <= ke <= {HI}"],
+    pre=["{LO} <= ks <= {HI} and {LO} <= kf <= {FHI} and {LO} <= t <= {HI} and {LO} <= ke <= {HI}"],
     post="_ == ''",
     bound="group of 2 members (one with unmatched-mode keep) over a 5-record file with quoted delimiter and embedded newline; stop "
     "line ks, fail line kf, match threshold t, error line ke symbolic LO..HI (shards fix some of them); run method per shard; read "
@@ -146,8 +146,8 @@ ENC = ["csvpath/managers/results/results_manager.py:ResultsManager.start_run/add
     outside="symbolic cell text and variable values through json/csv (C boundary): the data side is this one fixture; groups of "
     "more than 2; the symbolic ints are realised when the archive is written (solver-driven walk over the box)",
     encodes=ENC,
-    tiers={"quick": {"timeout": 1800, "K": {"LO": -1, "HI": 5}, "shards": product(method=["collect_paths", "collect_by_line"], t=[0], ke=[-1, 2], kf=[-1, 1])},
-           "thorough": {"timeout": 6000, "K": {"LO": -1, "HI": 5},
+    tiers={"quick": {"timeout": 1800, "K": {"LO": -1, "HI": 5, "FHI": 2}, "shards": product(method=["collect_paths", "collect_by_line", "fast_forward_paths", "next_by_line"], t=[0], ke=[-1, 2])},
+           "thorough": {"timeout": 6000, "K": {"LO": -1, "HI": 5, "FHI": 5},
                         "shards": product(method=["collect_paths", "fast_forward_paths", "next_paths", "collect_by_line", "fast_forward_by_line", "next_by_line"], t=[-1, 1], ke=[-1, 2])}},
 )
 def archive_truthful(method: str, ks: int, kf: int, t: int, ke: int) -> str:
